@@ -631,6 +631,9 @@ func poolScenario(x *explore.X) {
 		return lookup(ctx, network, host)
 	}
 	script := `function FindProxyForURL(url, host) {
+  if (host == "throw.test") throw new Error("boom");
+  if (host == "num.test") return 5;
+  if (host == "plain.test") return "DIRECT";
   var tag = "T-" + host;          // state kept in the VM across the blocking call
   var ip = dnsResolve(host);
   if (ip == null) return "DIRECT; " + tag;
@@ -641,6 +644,19 @@ func poolScenario(x *explore.X) {
 	if err != nil {
 		x.Failf("pool/new", "%v", err)
 		return
+	}
+	// what the pool has been through before the concurrent callers arrive (one or two earlier evaluations,
+	// successful or failing): the pool must be in the same condition afterwards
+	for k := 0; k < 2; k++ {
+		earlier := []string{"", "plain.test", "throw.test", "num.test"}[x.ChooseFree(fmt.Sprintf("earlier-evaluation-%d", k), 4)]
+		if earlier == "" {
+			break
+		}
+		r, err := pool.FindProxyForURL(&url.URL{Scheme: "http", Host: earlier, Path: "/"}, "")
+		if ok := earlier == "plain.test"; (err == nil) != ok || (ok && r != "DIRECT") {
+			x.Failf("pool/earlier-evaluation", "evaluation for %s returned %q, %v", earlier, r, err)
+			return
+		}
 	}
 	callHosts := []string{"a.b.test", "multi.test", "none.test", "a"}[:ncall]
 	if x.ChooseFree("same-host-twice", 2) == 1 {
@@ -761,7 +777,7 @@ func schedScenario(t *testing.T, x *explore.X) {
 
 func TestC14(t *testing.T) {
 	s := explore.NewSuite(t, "C14", "model_checking",
-		"(helpers) every predefined helper x every argument tuple of its alphabet (11 hosts incl. case variants, IPv4/IPv6 literals, unresolvable and multi-address names; 8 domains; 5 host-domain pairs; 18 glob patterns of literals . * ?; 7 dotted net/mask pairs; 11 CIDRs x 7 addresses; 9 address lists) with scripted DNS and interface addresses, compared with a reference evaluator; (helper-sequences) every sequence of 2 helper calls (quick and thorough; thorough adds every sequence of 3 resolver-consulting calls) out of the resolver-consulting helpers (dnsResolve, dnsResolveEx, isResolvable, isResolvableEx, isInNet over 7 hosts incl. dual-stack and IPv6-only names) and the pure string helpers (shExpMatch over 18 patterns incl. pairs where one looks like the regexp translation of the other, dnsDomainIs, localHostOrDomainIs on 3 hosts, sortIpAddressList) inside ONE evaluation and in consecutive evaluations of one resolver, each answer compared with the reference for that call alone (helpers are functions of their arguments); (result) 14 return expressions x 6 entry-point shapes; (trees) every decision tree if(c1){if([!]c2) L1; L2} L3 over 8 conditions and 4 leaves (quick: leaves fixed per position) evaluated on 10 hosts; (lists) every result list of <= 2 (quick) / 3 (thorough) entries from 16 well-formed and malformed entries through pac.Proxies.All/First/URL; (pool) 2-3 concurrent FindProxyForURL callers through ProxyResolverPool, each blocked inside dnsResolve, released in EVERY order (states = release histories), answers compared with the sequential ones; (pool-interleavings) sync.Pool of pool.go replaced at build time by a deterministic shim, 2-3 scheduler threads x 1-2 rounds, every interleaving of Get / evaluate / dnsResolve / Put with at most 2 (quick) / 3 (thorough) preemptions")
+		"(helpers) every predefined helper x every argument tuple of its alphabet (11 hosts incl. case variants, IPv4/IPv6 literals, unresolvable and multi-address names; 8 domains; 5 host-domain pairs; 18 glob patterns of literals . * ?; 7 dotted net/mask pairs; 11 CIDRs x 7 addresses; 9 address lists) with scripted DNS and interface addresses, compared with a reference evaluator; (helper-sequences) every sequence of 2 helper calls (quick and thorough; thorough adds every sequence of 3 resolver-consulting calls) out of the resolver-consulting helpers (dnsResolve, dnsResolveEx, isResolvable, isResolvableEx, isInNet over 7 hosts incl. dual-stack and IPv6-only names) and the pure string helpers (shExpMatch over 18 patterns incl. pairs where one looks like the regexp translation of the other, dnsDomainIs, localHostOrDomainIs on 3 hosts, sortIpAddressList) inside ONE evaluation and in consecutive evaluations of one resolver, each answer compared with the reference for that call alone (helpers are functions of their arguments); (result) 14 return expressions x 6 entry-point shapes; (trees) every decision tree if(c1){if([!]c2) L1; L2} L3 over 8 conditions and 4 leaves (quick: leaves fixed per position) evaluated on 10 hosts; (lists) every result list of <= 2 (quick) / 3 (thorough) entries from 16 well-formed and malformed entries through pac.Proxies.All/First/URL; (pool) after 0-2 earlier evaluations (successful, throwing, non-string result), 2-3 concurrent FindProxyForURL callers through ProxyResolverPool, each blocked inside dnsResolve, released in EVERY order (states = release histories), answers compared with the sequential ones; (pool-interleavings) sync.Pool of pool.go replaced at build time by a deterministic shim, 2-3 scheduler threads x 1-2 rounds, every interleaving of Get / evaluate / dnsResolve / Put with at most 2 (quick) / 3 (thorough) preemptions")
 	s.Assume = []string{"reference helper semantics: Netscape PAC text / Mozilla ascii_pac_utils.js / Chromium on the domain where they agree (see DESIGN.md)", "goja executes the JavaScript; the harness scripts DNS through the package's testingLookupIP seam"}
 	s.Add(explore.Scenario{Name: "helpers", Run: helperScenario})
 	s.Add(explore.Scenario{Name: "my-ip", Run: myIPScenario})
